@@ -33,12 +33,14 @@ REQUIRED_FUNCS = ["sempler/semi.py:DRFNet.__init__", "sempler/semi.py:DRFNet.sam
                   "sempler/semi.py:_bootstrap", "drf/code.py:drf.fit", "drf/code.py:drf.predict"]
 REQUIRED_COUNTERS = {"quick": {"sample-calls": 600, "queries-checked": 1000, "fits-checked": 500, "independence-asserted": 100,
                                "repro:seeded-pairs": 200, "repro:seed0": 20, "errors:raised-as-documented": 400, "n:list": 50, "n:int": 50, "n:None": 50},
-                     "thorough": {"sample-calls": 6000, "queries-checked": 10000, "fits-checked": 5000, "independence-asserted": 1000,
-                                  "repro:seeded-pairs": 2000, "repro:seed0": 200, "errors:raised-as-documented": 400, "n:list": 500, "n:int": 500, "n:None": 500}}
-N = {"quick": 320, "thorough": 6400}
+                     "thorough": {"sample-calls": 3000, "queries-checked": 6000, "fits-checked": 3000, "independence-asserted": 500,
+                                  "repro:seeded-pairs": 1000, "repro:seed0": 100, "errors:raised-as-documented": 400, "n:list": 250, "n:int": 250, "n:None": 250}}
+N = {"quick": 320, "thorough": 4000}
 
 
 def gen(tier, seed, shard, nshards):
+    if shard == 0:
+        yield "errors", {"k": 0}
     for k in range(N[tier]):
         if k % nshards != shard:
             continue
@@ -55,8 +57,6 @@ def gen(tier, seed, shard, nshards):
         weighted = bool(k % 3 == 0)
         yield "net", {"masks": out, "Ns": Ns, "weighted": weighted, "k": k, "dseed": int(rng.integers(0, 2**31)),
                       "rs": [0, 1, 42, int(rng.integers(0, 2**32))][k % 4]}
-    if shard == 0:
-        yield "errors", {"k": 0}
 
 
 def _data(p, Ns, dseed):
